@@ -98,6 +98,9 @@ def check_graph(ctx, case):
     if n >= 3 and h % 4 == 1:
         _remove_history(ctx, case, rec, cls, g, nodes, succ, h)
         return
+    if h % 4 == 3:
+        _second_graph_history(ctx, case, rec, cls, nodes, succ)
+        return
     if n < 2 or h % 2:
         return
     a, b, k = (h >> 1) % n, (h >> 5) % n, (h >> 9) % 2
@@ -152,6 +155,60 @@ def _remove_history(ctx, case, rec, cls, g, nodes, succ, h):
             ctx.fail('remove:%s:%s' % (clause, cls), rec,
                      'after remove_node(n%d) and compute_rpo() again (remaining nodes renumbered 0..%d): ' % (r, n - 2)
                      + '; '.join(d for c, d in probs if c == clause)[:600])
+        return
+    # ... and the removed node object is put back with its former edges: the numbering must again be valid for the
+    # original graph
+    try:
+        g.add_node(nodes[r])
+        for a, b, k in case['edges']:
+            if r in (a, b):
+                if k in (0, 2):
+                    g.add_edge(nodes[a], nodes[b])
+                if k in (1, 2):
+                    g.add_catch_edge(nodes[a], nodes[b])
+        g.compute_rpo()
+    except Exception:
+        ctx.fail('readd:exception:%s' % cls, dict(rec, removed_node=r), traceback.format_exc())
+        return
+    ctx.count('renumbered_after_putting_node_back')
+    _validate(ctx, 'readd', dict(rec, removed_and_readded_node=r), cls, n, succ, g, nodes,
+              'after remove_node(n%d), add_node(n%d) and its former edges again' % (r, r))
+
+
+def _validate(ctx, bucket, rec, cls, n, succ, g, nodes, what):
+    num = {i: nodes[i].num for i in range(n)}
+    index = {x: i for i, x in enumerate(nodes)}
+    order = [index.get(x, -1) for x in g.rpo]
+    probs = dm.rpo_problems(n, succ, 0, num, order)
+    if probs:
+        rec = dict(rec, num=[num[i] for i in range(n)], rpo=order)
+        for clause in sorted({c for c, _ in probs}):
+            ctx.fail('%s:%s:%s' % (bucket, clause, cls), rec, what + ': ' + '; '.join(d for c, d in probs if c == clause)[:600])
+    return not probs
+
+
+def _second_graph_history(ctx, case, rec, cls, nodes, succ):
+    """history: a second Graph object is built over the SAME node objects (same edges, inserted in reverse order) and
+    numbered: numbering one graph must not depend on another graph having been numbered before."""
+    from androguard.decompiler.graph import Graph
+    n = case['n']
+    try:
+        g2 = Graph()
+        for x in nodes:
+            g2.add_node(x)
+        for a, b, k in reversed(case['edges']):
+            if k in (0, 2):
+                g2.add_edge(nodes[a], nodes[b])
+            if k in (1, 2):
+                g2.add_catch_edge(nodes[a], nodes[b])
+        g2.entry = nodes[0]
+        g2.compute_rpo()
+    except Exception:
+        ctx.fail('second-graph:exception:%s' % cls, rec, traceback.format_exc())
+        return
+    ctx.count('second_graph_over_same_nodes_numbered')
+    _validate(ctx, 'second-graph', dict(rec, history='second graph over the same node objects'), cls, n, succ, g2, nodes,
+              'second Graph built over the same node objects')
 
 
 def big_graph(n, seed):
